@@ -285,7 +285,13 @@ def run_one(tape, cfg):
                     elif op == "get_interrupt":
                         faults = {"interrupt": 1 + tape.draw(3, "nth")}
                     mark = len(log)
-                    obs = sr.run_graph(tape, spec, request, rcfg, fail=fail, faults=faults)
+                    # the failed task re-executed in the calling thread (a debugging aid): still one
+                    # pretask per task
+                    rerun = fail is not None and tape.chance(1, 3, "rerun_locally")
+                    if rerun:
+                        out.probe("rerun_exceptions_locally")
+                    obs = sr.run_graph(tape, spec, request, rcfg, fail=fail, faults=faults,
+                                       extra_kw={"rerun_exceptions_locally": True} if rerun else None)
                     digests.append(obs.sim.digest())
                     events = log[mark:]
                     failed = obs.exc is not None
